@@ -1,5 +1,5 @@
 (* C03 — level-triggered cancellation: the theorems. *)
-From AV Require Import Base Machine ScopeFrames DeliverInv TreeInv DeliverAlive TreeStep.
+From AV Require Import Base Machine ScopeFrames DeliverInv TreeInv DeliverAlive PotentialInv TreeStep KernelInv.
 
 (* I4 for every reachable state of the generated domain *)
 Theorem delivery_alive s c :
@@ -30,7 +30,7 @@ Definition takes_request (s : st) (t : tid) : Prop :=
    exists x, k_cur (tasks s t) = Some x /\ s_host (scopes s x) = Some t) /\
   match k_waiter (tasks s t) with Some f => f_st (futs s f) = FPend | None => True end.
 
-Theorem deliver_cancels_reach s c :
+Theorem deliver_cancels_reach_wl s c :
   reach_ok s -> wait_link s -> In (HDeliver c) (ready s) ->
   let s' := fst (step s (ARun (HDeliver c))) in
   (forall t, reaches s t c -> takes_request s t -> requested s' t (S c)) /\
@@ -66,6 +66,19 @@ Proof.
     destruct Hd as [t Rt]. exists t. now apply Rs.
   - intros c' Hne. cbn [scopes set_running]. now rewrite (Oth c' Hne).
 Qed.
+
+(* the kernel link holds in every reachable state, so the hypothesis can be dropped *)
+Lemma reach_ok_wait_link s : reach_ok s -> wait_link s.
+Proof. intros [ops [_ ->]]. apply reach_wait_link. Qed.
+
+Theorem deliver_cancels_reach s c :
+  reach_ok s -> In (HDeliver c) (ready s) ->
+  let s' := fst (step s (ARun (HDeliver c))) in
+  (forall t, reaches s t c -> takes_request s t -> requested s' t (S c)) /\
+  ((exists t, reaches s t c) -> s_chandle (scopes s' c) = true /\ In (HDeliver c) (ready s')) /\
+  (~ (exists t, reaches s t c) -> s_chandle (scopes s' c) = false) /\
+  (forall c', c' <> c -> scopes s' c' = scopes s c').
+Proof. intros R Hin. apply deliver_cancels_reach_wl; [exact R|now apply reach_ok_wait_link|exact Hin]. Qed.
 
 (* ---------------- the request is what the task receives at its next step ---------------- *)
 Theorem cancelled_request_is_delivered s t o :
@@ -177,3 +190,121 @@ Proof.
     apply vis_here.
   - vm_compute. auto.
 Qed.
+
+(* ---------------- bounded response, the one-cycle pieces ----------------
+   In a reachable state, a task blocked on a pending future inside a cancelled scope:
+   (1) the scope's delivery callback is in the ready queue (it runs within the current FIFO cycle);
+   (2) when it runs, the task's wait is cancelled with the scope as origin and its wake-up is scheduled
+       (it runs within the next cycle);
+   (3) that wake-up raises the cancellation in the task.
+   What is not proved is the glue of the full 2-cycle statement: that no other callback running between
+   these three moments disturbs the picture (completes the wait, flips a shield, cancels natively ...). *)
+Lemma run_deliver_task_core s c t :
+  In (HDeliver c) (ready s) ->
+  tk_core (tasks (fst (step s (ARun (HDeliver c)))) t) = tk_core (tasks s t).
+Proof.
+  intros Hin. cbn [step actor]. unfold run_handle.
+  assert (Ex : existsb (handle_eqb (HDeliver c)) (ready s) = true) by now apply existsb_handle.
+  rewrite Ex. cbn [negb fst tasks set_running].
+  apply (kf_tasks _ _ (kframe_deliver_top (set_running (set_ready s (remove_first (HDeliver c) (ready s))) None) c) t).
+Qed.
+
+Lemma cancelled_wait_raises_core s t o f :
+  k_must (tasks s t) = false -> k_waiter (tasks s t) = Some f -> f_st (futs s f) = FCanc o ->
+  match k_ctl (tasks s t) with
+  | CYield YCheckpoint | CYield YCkIf | CSleep _ _ | CHandleWait _ _ => True
+  | _ => False
+  end ->
+  snd (resume s t (Some f)) = RExc (ECancel o).
+Proof.
+  intros Hm Hw Hf Hc. unfold resume. pose proof (incoming_ctl s t (Some f)) as Ec.
+  assert (Hi : snd (incoming s t (Some f)) = Some (ECancel o)).
+  { unfold incoming. cbn [snd]. now rewrite Hm, Hf. }
+  destruct (incoming s t (Some f)) as [s1 inc]. cbn [fst snd] in *. subst inc.
+  rewrite Ec. destruct (k_ctl (tasks s t)) as [| |[| |c]| | | | | | |]; try contradiction; reflexivity.
+Qed.
+
+Theorem cancel_latency_le_2_cycles_partial s t c f :
+  reach_ok s -> s_cancelled (scopes s c) = true -> s_host (scopes s c) <> None -> reaches s t c ->
+  k_must (tasks s t) = false -> k_started (tasks s t) = true ->
+  k_waiter (tasks s t) = Some f -> f_st (futs s f) = FPend ->
+  match k_ctl (tasks s t) with
+  | CYield YCheckpoint | CYield YCkIf | CSleep _ _ | CHandleWait _ _ => True
+  | _ => False
+  end ->
+  let s1 := fst (step s (ARun (HDeliver c))) in
+  In (HDeliver c) (ready s) /\
+  In (HWake t f) (ready s1) /\
+  snd (step s1 (ARun (HWake t f))) = RExc (ECancel (S c)).
+Proof.
+  intros R C Hh Rt Hm Hs Hw Hp Hctl s1.
+  destruct (delivery_alive s c R C Hh (ex_intro _ t Rt)) as [_ Hin]. split; [exact Hin|].
+  destruct (deliver_cancels_reach s c R Hin) as [Req _]. fold s1 in Req.
+  assert (Tk : takes_request s t).
+  { split; [exact Hm|]. split; [now left|]. now rewrite Hw. }
+  pose proof (Req t Rt Tk) as Rq.
+  pose proof (run_deliver_task_core s c t Hin) as Ec. fold s1 in Ec.
+  assert (Hw1 : k_waiter (tasks s1 t) = Some f) by (rewrite (tcore_waiter _ _ Ec); exact Hw).
+  destruct Rq as [[_ [_ Hn]]|[f' [Hm1 [Hw' [Hf Hr]]]]]; [congruence|].
+  rewrite Hw1 in Hw'. inversion Hw'; subst f'. split; [exact Hr|].
+  cbn [step actor]. unfold run_handle.
+  assert (Ex : existsb (handle_eqb (HWake t f)) (ready s1) = true) by now apply existsb_handle.
+  rewrite Ex. cbn [negb].
+  apply cancelled_wait_raises_core; cbn [tasks futs set_ready]; try assumption.
+  rewrite (tcore_ctl _ _ Ec). exact Hctl.
+Qed.
+
+(* the same for a task suspended in a bare yield (checkpoint, the checkpoint_if_cancelled spin loop): the
+   request is recorded in the task (_must_cancel) and its scheduled step raises it -- ckif_spin_terminates *)
+Theorem ckif_spin_terminates_partial s t c :
+  reach_ok s -> s_cancelled (scopes s c) = true -> s_host (scopes s c) <> None -> reaches s t c ->
+  k_must (tasks s t) = false -> k_started (tasks s t) = true -> k_waiter (tasks s t) = None ->
+  In (HStep t) (ready s) ->
+  match k_ctl (tasks s t) with CYield YCheckpoint | CYield YCkIf => True | _ => False end ->
+  let s1 := fst (step s (ARun (HDeliver c))) in
+  In (HDeliver c) (ready s) /\
+  In (HStep t) (ready s1) /\
+  snd (step s1 (ARun (HStep t))) = RExc (ECancel (S c)).
+Proof.
+  intros R C Hh Rt Hm Hs Hw Hst Hctl s1.
+  destruct (delivery_alive s c R C Hh (ex_intro _ t Rt)) as [_ Hin]. split; [exact Hin|].
+  destruct (deliver_cancels_reach s c R Hin) as [Req _]. fold s1 in Req.
+  assert (Tk : takes_request s t).
+  { split; [exact Hm|]. split; [now left|]. now rewrite Hw. }
+  pose proof (Req t Rt Tk) as Rq.
+  pose proof (run_deliver_task_core s c t Hin) as Ec. fold s1 in Ec.
+  assert (Hw1 : k_waiter (tasks s1 t) = None) by (rewrite (tcore_waiter _ _ Ec); exact Hw).
+  destruct Rq as [[Hm1 [Hmsg _]]|[f' [_ [Hw' _]]]]; [|congruence].
+  assert (Hst1 : In (HStep t) (ready s1)).
+  { unfold s1. cbn [step actor]. unfold run_handle.
+    assert (Ex : existsb (handle_eqb (HDeliver c)) (ready s) = true) by now apply existsb_handle.
+    rewrite Ex. cbn [negb fst ready set_running].
+    destruct (kf_ready _ _ (kframe_deliver_top (set_running (set_ready s (remove_first (HDeliver c) (ready s))) None) c))
+      as [l [El _]].
+    rewrite El. apply in_or_app. left. cbn. apply in_remove_first_ne; [exact Hst|discriminate]. }
+  split; [exact Hst1|].
+  cbn [step actor]. unfold run_handle.
+  assert (Ex : existsb (handle_eqb (HStep t)) (ready s1) = true) by now apply existsb_handle.
+  rewrite Ex. cbn [negb].
+  set (s2 := set_ready s1 (remove_first (HStep t) (ready s1))).
+  unfold resume. pose proof (incoming_ctl s2 t None) as Ec2.
+  assert (Hi : snd (incoming s2 t None) = Some (ECancel (S c))).
+  { unfold incoming. cbn [snd]. change (tasks s2 t) with (tasks s1 t). now rewrite Hm1, Hmsg. }
+  destruct (incoming s2 t None) as [s3 inc]. cbn [fst snd] in *. subst inc.
+  rewrite Ec2. change (tasks s2 t) with (tasks s1 t). rewrite (tcore_ctl _ _ Ec).
+  destruct (k_ctl (tasks s t)) as [| |[| |c0]| | | | | | |]; try contradiction; reflexivity.
+Qed.
+
+
+(* non-vacuity of the latency statements: the task cancels its own scope while running (the delivery skips it
+   and re-schedules itself), then suspends in a checkpoint *)
+Definition ex_ops2 : list op := [ANewRoot; ANewScope 1 None false; AEnter 1 1; ACancel 1 1; AYield 1].
+
+Example ex_latency_premises :
+  let s := final step init ex_ops2 in
+  ops_ok init ex_ops2 = true /\
+  s_cancelled (scopes s 1) = true /\ s_host (scopes s 1) = Some 1 /\
+  k_must (tasks s 1) = false /\ k_started (tasks s 1) = true /\ k_waiter (tasks s 1) = None /\
+  In (HStep 1) (ready s) /\ k_ctl (tasks s 1) = CYield YCheckpoint /\ In (HDeliver 1) (ready s) /\
+  snd (step (fst (step s (ARun (HDeliver 1)))) (ARun (HStep 1))) = RExc (ECancel 2).
+Proof. vm_compute. repeat split; auto. Qed.
